@@ -450,8 +450,7 @@ def known_id(case, failure):
     if case["kind"] == "quotestart" and failure.startswith("texts differ") and \
             any(isq(n[0][0]) for n in _walk(case["tree"])):
         return "F31"
-    if case["kind"] == "cmtafter" and failure.startswith("parent of line"):
-        m = re.match(r"parent of line \d+ \('\s*#", failure)
-        if m and failure.endswith("expected " + failure.rsplit(" ", 1)[1]) and " is r expected " in failure:
-            return "F32"
+    if case["kind"] == "cmtafter" and " is r expected " in failure and \
+            re.match(r"parent of line \d+ \(['\"]\s*#", failure):
+        return "F32"
     return None
